@@ -4,11 +4,51 @@ import nodecheck
 PROFILE = dict(outbound=0.9)
 W = nodecheck.weights(tick=10, dpr=4, close=3, conndone=8, cea=8, readerr=2)
 N_QUICK, N_THOROUGH, LENGTH = 60, 1500, 22
-THEMES = (("disconnect", None, 0, None, 0), ("disconnect_deep", 0, 0, 4000, 0), ("handshake_out", 2, 30, 3, 300))
+THEMES = (("disconnect", None, 0, None, 0), ("disconnect_deep", 0, 0, 4000, 0), ("reconnect_after_dpr", 120, 0, None, 0), ("shutdown", 160, 0, None, 0), ("handshake_out", 2, 30, 3, 300))
 FILES = ["Props/C12.v"]
 
 
+def write_error_redial(run):
+    """A persistent peer whose connection is lost through a HARD WRITE error (a fault kind the node model has no event
+    for) is treated like any other loss: the connection leaves the tables, the disconnect is recorded, and the peer is
+    dialled again once reconnect_wait has elapsed.  Judged on the implementation."""
+    import errno
+    import nodesim as NS
+    for err, rwait in ((errno.EPIPE, 3), (errno.ECONNRESET, 6)):
+        cfg = NS.default_cfg()
+        cfg["peers"] = [dict(name="a.example.net", realm="example.net", addr=True, persistent=True, always=False, cea=None, cer=None,
+                             dwa=None, idle=None, rwait=rwait, apps=[0], default=False)]
+        e2e0 = ((NS.T0 << 20) | cfg["e2e_rand"]) & 0xffffffff
+        r = NS.Run(cfg, seed=5)
+        try:
+            r.apply(dict(ev="start", dials=[(500, "DialOk")]))
+            r.apply(dict(ev="recv", cid=0, dials=[], frames=[NS.build_message(dict(kind="cea", host="a.example.net", result=2001, hbh=501, e2e=e2e0 + 1))]))
+            r.remotes[0].script_send([("err", err)])
+            r.apply(dict(ev="recv", cid=0, dials=[], frames=[NS.build_message(dict(kind="dwr", host="a.example.net", hbh=9, e2e=9))]))
+            r.sim.advance(1)
+            peer = r.node.peers["a.example.net"]
+            gone = {"connections": len(r.node.connections), "peer_connection": peer.connection is not None,
+                    "last_disconnect_set": bool(peer.last_disconnect), "socket_closed": r.remotes[0].closed_by_node}
+            o = r.apply(dict(ev="tick", dt=rwait + 3, dials=[(600, "DialOk")] * (rwait + 5)))
+            dialled = len(r.remotes) > 1 or bool(o.get("dials"))
+            run.count(1, [("write-error-redial", err, rwait)])
+            case = {"scenario": "persistent peer, hard write error %s, reconnect_wait %d" % (errno.errorcode[err], rwait)}
+            if gone["connections"] or gone["peer_connection"] or not gone["last_disconnect_set"] or not gone["socket_closed"] or not dialled:
+                run.violation("reconnect-iff", case, dict(gone, dialled_again=dialled),
+                              "connection removed, disconnect recorded, peer dialled again after reconnect_wait",
+                              what="a persistent peer lost through a hard write error is not cleaned up / never dialled again")
+        finally:
+            r.shutdown()
+
+
 def check(run):
+    orig_obligations = run.obligations
+
+    def obligations_then_more(files):
+        out = orig_obligations(files)
+        write_error_redial(run)
+        return out
+    run.obligations = obligations_then_more
     return nodecheck.run(run, "C12", FILES, PROFILE, W, N_QUICK, N_THOROUGH, LENGTH, themes=THEMES)
 
 
